@@ -28,7 +28,7 @@ CFG = {
         "happen in the one accepting goroutine before it accepts again - an internal label of that goroutine, distinct from the arrival of the connection); Go runtime semantics assumed as in DESIGN "
         "section 6: conn.Close unblocks a pending Read/Write and makes later ones fail, deadlines fire, deferred calls "
         "run on panic, sync.Once. Pop and Write of one payload are one label (the queue length is not observable). "
-        "Error kinds (error / timeout / EOF / handler error / panic) take the same branch in the code and set the same "
+        "Error kinds (error / timeout / EOF / handler error / panic with any value incl. nil / Goexit: eight constructors of rkind, theorem c16_handler_end_kinds) take the same branch in the code and set the same "
         "flag in the model; they are distinguished in the generator only. A panic inside OnExit is outside the "
         "statement. A zero-length payload is popped and skipped by the send loop (repair 225387c; class empty-send); the "
         "flush theorem and the monitor's flush clause hold for all payloads, zero-length included (the accepted bytes "
@@ -44,7 +44,7 @@ CFG = {
         "one case = one scenario on real sessions (phases of back-to-back issued events, observation at quiescence after "
         "each phase); classes: one terminating event after 0..20 queued sends (8 events x pipe/TCP), every ordered pair "
         "of terminating events sequentially and racing in one burst, flush with 0..20 sends (burst / one by one / "
-        "stalled peer that later reads), blocked write then each event, zero-length payloads between real ones, slow drain (50-65 queued sends, local Close, write timeout 800 ms, a peer reading one chunk every 40 ms so that the drain lasts 2-4 write timeouts while no write waits near one; net.Pipe and loopback TCP with every payload byte 8 KiB on the wire and 32 KiB socket buffers; a case is emitted only when the longest interval between peer reads and the latest 2 ms watchdog tick both stayed below a third of the write timeout, else retried up to 3 times and dropped, counted in harness_meta), concurrent Sends from 2-8 goroutines on one session in one to three rounds, then Close (small payloads, and large ones: every payload symbol is 8 or 32 KiB handed to Session.Send, 40 KiB-1.1 MiB per call, folded back by the peer; the calls are released by a spin barrier so that they overlap; the phase is marked concurrent and the order in which the calls took effect is read off the observation and checked in Coq to be a permutation of them), peer bytes written after the session is over (the handler must stay silent), a third of all scenarios with a connection whose Close closes and then returns an error, the manager's own read and "
+        "stalled peer that later reads), blocked write then each event, zero-length payloads between real ones, slow drain (50-65 queued sends, local Close, write timeout 800 ms, a peer reading one chunk every 40 ms so that the drain lasts 2-4 write timeouts while no write waits near one; net.Pipe and loopback TCP with every payload byte 8 KiB on the wire and 32 KiB socket buffers; a case is emitted only when the longest interval between peer reads and the latest 2 ms watchdog tick both stayed below a third of the write timeout, else retried up to 3 times and dropped, counted in harness_meta), concurrent Sends from 2-8 goroutines on one session in one to three rounds, then Close (small payloads, and large ones: every payload symbol is 8 or 32 KiB handed to Session.Send, 40 KiB-1.1 MiB per call, folded back by the peer; the calls are released by a spin barrier so that they overlap; the phase is marked concurrent and the order in which the calls took effect is read off the observation and checked in Coq to be a permutation of them), peer bytes written after the session is over (the handler must stay silent), a third of all scenarios with a connection whose Close closes and then returns an error, every way the read handler can unwind the receive loop, each deterministically on both transports (class handler-end: panic with a string / with nil - recover() answers nil under the go 1.19 semantics of the module - / with an error value / with a user type, runtime.Goexit), histories on one manager (a session ends with a write error while a payload is in hand, then a healthy session queues several equally sized payloads before its peer reads, then Close), an exit callback that takes 300 us in all racing classes and half of the walks (schedule perturbation only), the manager's own read and "
         "write deadlines firing, accept loop with maxConn 0..3 (random arrivals, surplus, exits, re-arrivals), several "
         "sessions on one manager, random walks with bursts; non-trivial = at least one session ended (OnExit observed) "
         "or one connection was closed on accept; distinct = distinct Coq case term"
